@@ -107,6 +107,8 @@ def dump():
                  'has_init': '__init__' in c.__dict__,
                  'value_setter': 'value' in c.__dict__,
                  'xsd_name': t.name if t is not None else None,
+                 'own_first_pattern': (t.get_pattern(None) if t is not None else None),
+                 'has_restriction': restr is not None,
                  'restriction': None if restr is None else {
                      'base': restr.get_attributes().get('base'),
                      'children': [[ch.tag, ch.get_attributes().get('value')] for ch in restr.get_children()]},
